@@ -38,8 +38,13 @@ class GlyphMapping:
         else:
             row.append("")
         # Use a csv.writer instead of ",".join() so we escape commas in file/glyph names
+        # load_from reads with skipinitialspace=True, which would strip the leading
+        # spaces of an unquoted field; quote the row if any field starts with one
+        quoting = csv.QUOTE_MINIMAL
+        if any(str(v).startswith(" ") for v in row):
+            quoting = csv.QUOTE_ALL
         f = StringIO()
-        writer = csv.writer(f, lineterminator="")
+        writer = csv.writer(f, lineterminator="", quoting=quoting)
         writer.writerow(row)
         return f.getvalue()
 
